@@ -6,7 +6,8 @@ For every property, the functions named in its anchors (properties.jsonl) are
 mutated syntactically (tools/mutgen: relational / logical / arithmetic operator
 swaps, dropped negations, negated conditions, deleted call and assignment
 statements, +-1 on integer literals, break<->continue, swallowed errors). Each
-mutant is applied to a PRIVATE copy of the repository (never to /repo), must
+mutant is applied to a PRIVATE copy of the repository's HEAD commit (never to /repo,
+whose working tree is not even read), must
 build and pass the repository's test suite, and is then handed to the quick tier
 of the property's check (run from a private copy of /verif with VERIF_REPO
 pointing at the mutated copy). Results: mutation/results.jsonl; survivors are
@@ -27,6 +28,16 @@ import time
 
 ROOT = os.path.dirname(os.path.abspath(__file__))
 SCRATCH = "/tmp/mut"
+PRISTINE = "/tmp/mut-pristine"  # git archive of the pinned commit: /repo's working tree is never read
+
+
+def pin():
+    """Exports /repo's HEAD commit (not its working tree, which seeded-defect runs patch) to PRISTINE."""
+    head = subprocess.run(["git", "-C", "/repo", "rev-parse", "HEAD"], stdout=subprocess.PIPE, text=True, check=True).stdout.strip()
+    shutil.rmtree(PRISTINE, ignore_errors=True)
+    os.makedirs(PRISTINE)
+    subprocess.run("git -C /repo archive %s | tar -x -C %s" % (head, PRISTINE), shell=True, check=True)
+    return head
 OUT = os.path.join(ROOT, "mutation", "results.jsonl")
 
 
@@ -70,9 +81,9 @@ def mutants(props_filter, cap):
     subprocess.run(["go", "build", "-o", os.path.join(ROOT, ".build", "mutgen"), "./tools/mutgen"], cwd=ROOT, env=goenv(), check=True)
     per_prop = collections.defaultdict(list)
     for f, ids in files.items():
-        if not os.path.exists("/repo/" + f):
+        if not os.path.exists(PRISTINE + "/" + f):
             continue
-        out = subprocess.run([os.path.join(ROOT, ".build", "mutgen"), "/repo/" + f], capture_output=True, text=True).stdout
+        out = subprocess.run([os.path.join(ROOT, ".build", "mutgen"), PRISTINE + "/" + f], capture_output=True, text=True).stdout
         for line in out.splitlines():
             m = json.loads(line)
             m["file"] = f
@@ -97,7 +108,7 @@ def setup_worker(k):
     w = os.path.join(SCRATCH, "w%d" % k)
     shutil.rmtree(w, ignore_errors=True)
     os.makedirs(w)
-    subprocess.run(["rsync", "-a", "--exclude", ".git", "/repo/", w + "/repo/"], check=True)
+    subprocess.run(["rsync", "-a", PRISTINE + "/", w + "/repo/"], check=True)
     subprocess.run(["rsync", "-a", "--exclude", ".git", "--exclude", "replays", "--exclude", "seeded", "--exclude", "mutation",
                     "--exclude", ".build/out", ROOT + "/", w + "/verif/"], check=True)
     return w
@@ -114,7 +125,7 @@ def work(k, queue, lock, shards, done):
         if m["id"] in done:
             continue
         path = os.path.join(repo, m["file"])
-        src = open("/repo/" + m["file"], "rb").read()
+        src = open(PRISTINE + "/" + m["file"], "rb").read()
         res = dict(m)
         if src[m["start"]:m["end"]].decode() != m["old"]:
             res["status"] = "stale"
@@ -164,12 +175,36 @@ def main():
     shards = int(arg("--shards", "8"))
     pf = arg("--props")
     pf = set(pf.split(",")) if pf else None
+    head = pin()
     ms = mutants(pf, cap)
     done = set()
+    reuse = arg("--reuse")
+    if reuse and "--list" not in sys.argv:
+        # verdicts that do not depend on the checks (does not build / killed by the repository's
+        # own tests) are taken over from an earlier run for files that are unchanged since.
+        old = {}
+        for line in open(reuse):
+            r = json.loads(line)
+            old[r["id"]] = r
+        base = arg("--reuse-commit")
+        kept = 0
+        os.makedirs(os.path.dirname(OUT), exist_ok=True)
+        with open(OUT, "a") as f:
+            for m in ms:
+                r = old.get(m["id"])
+                if not r or r["status"] not in ("killed-by-repo-tests", "no-build"):
+                    continue
+                same = subprocess.run(["git", "-C", "/repo", "diff", "--quiet", base, head, "--", m["file"]]).returncode == 0
+                if same and r["old"] == m["old"] and r["new"] == m["new"]:
+                    r["reused_from"] = os.path.basename(reuse)
+                    f.write(json.dumps(r) + "\n")
+                    done.add(m["id"])
+                    kept += 1
+        print("reused %d verdicts from %s" % (kept, reuse), flush=True)
     if "--resume" in sys.argv and os.path.exists(OUT):
         for line in open(OUT):
             done.add(json.loads(line)["id"])
-    print("%d mutants selected, %d already done" % (len(ms), len(done)), flush=True)
+    print("pinned commit %s; %d mutants selected, %d already done" % (head[:7], len(ms), len(done)), flush=True)
     if "--list" in sys.argv:
         c = collections.Counter(m["props"][0] for m in ms)
         print(dict(c))
